@@ -400,7 +400,7 @@ pub fn run(ctx: &Ctx, col: &Collector) -> Meta {
     }
     run_cases(&ctx.run_cfg(ctx.n(1500, 30_000), 2), "header", header_strategy, col, check_header);
     let h = hc(ctx.thorough);
-    run_hist(ctx, col, &h, ctx.n(3000, 50_000));
+    run_hist(ctx, col, &h, ctx.n(3000, 25_000));
     for c in ["header:metadata-absent", "header:metadata-empty", "header:metadata-non-empty", "golden:verified", "big-objects:verified"] {
         if col.class_count(c) == 0 && !col.stopped() {
             col.note(format!("generator unhealthy: class {c} empty"));
